@@ -8,8 +8,9 @@ import (
 
 // CtxData models sdk.Context.
 type CtxData struct {
-	BlockTime *smt.Term
-	Name      string
+	BlockTime   *smt.Term
+	BlockHeight *smt.Term // lazily: an arbitrary non-negative height, fixed per context
+	Name        string
 }
 
 // KItem is one item of a structured key: raw bytes or a compkey component
